@@ -26,7 +26,11 @@ type reachSet struct {
 }
 
 func ownGlobal(g *ssa.Global) bool {
-	return g.Pkg != nil && strings.HasPrefix(g.Pkg.Pkg.Path(), "go.uber.org/zap")
+	if g.Pkg == nil {
+		return false
+	}
+	path := g.Pkg.Pkg.Path()
+	return strings.HasPrefix(path, "go.uber.org/zap") || path == "log"
 }
 
 func contKey(s []value) unsafe.Pointer {
